@@ -85,6 +85,14 @@ def sum_validate(it, func, args, kwargs):
                 raise PathDead()
             if not it.truth(ops.compare(it, "Eq", f["type"], want)):
                 raise PathDead()
+            bucket = env.get("cfg_subs")
+            if bucket is not None:
+                # split the internal command by sub-type groups (pure work partitioning: the groups
+                # of one command cover all sub-types)
+                kind, st = lift(f["sub_type"])
+                inb = z3.Or([st == b for b in bucket["members"]])
+                cond = inb if bucket["in"] else z3.Not(inb)
+                it.ctx.add_fact(cond)
         return Opaque("validated-message")
     if first and want is not None and want != -1:
         from pyvc.core import PathDead
